@@ -43,7 +43,7 @@ class OptionType(MichelsonType, prim='option', args_len=1):
 
     @staticmethod
     def none(some_type: Type[MichelsonType]) -> 'OptionType':
-        cls = OptionType.create_type(args=[some_type])
+        cls = OptionType.create_type(args=[some_type.get_anon_type()])
         return cls(None)  # type: ignore
 
     @staticmethod
